@@ -100,7 +100,7 @@ def main():
                 cands.append((os.path.join(base, d), d.split("-")[0], d))
     else:
         for pid in ALL:
-            for x in ("a", "b", "c", "d"):
+            for x in ("a", "b", "c", "d", "e", "f", "g", "h"):
                 d = os.path.join(a.src, pid, x)
                 if os.path.isdir(d) and (not a.only or a.only in f"{pid}-{x}"):
                     cands.append((d, pid, f"{pid}-{x}"))
